@@ -27,6 +27,44 @@ class Mismatch(Exception):
         self.detail = detail
 
 
+class Merged:
+    """model-side result of a class merge: (class, state); bytes are adopted from the storage after comparison"""
+
+    def __init__(self, meta, state):
+        self.meta = meta
+        self.state = state
+
+    def matches(self, data):
+        meta, state, refs = objs.decode_record(data)
+        return meta == self.meta and state == self.state
+
+    def __eq__(self, other):
+        return False
+
+
+def model_resolver(oid, old, committed, new):
+    """what the classes in zv.objs merge to, recomputed independently (None = cannot merge)"""
+    try:
+        mo, so, _ = objs.decode_record(old)
+        mc, sc, _ = objs.decode_record(committed)
+        mn, sn, _ = objs.decode_record(new)
+    except Exception:
+        return None
+    if mn is objs.Counter:
+        r = dict(sn)
+        r['value'] = sc['value'] + sn['value'] - so['value']
+        return Merged(mn, r)
+    if mn is objs.USet:
+        r = dict(sn)
+        r['items'] = sorted(set(sc['items']) | set(sn['items']))
+        return Merged(mn, r)
+    if mn is objs.MaxReg:
+        r = dict(sc)
+        r['value'] = max(sc['value'], sn['value'])
+        return Merged(mn, r)
+    return None
+
+
 class Driver:
     def __init__(self, storage, rnd, kind='file', spec=None, log=None, oids=None, big=False,
                  resolver=None, record_class=None):
@@ -44,6 +82,9 @@ class Driver:
         self.resolver = resolver
         self.features = set()
         self.record_class = record_class
+        self.mix_classes = False        # C06/C10: per-oid classes incl. resolvable ones
+        self.equal_p = 0.15
+        self.classes = {}
 
     # -- helpers
     def meta(self, extreme=False):
@@ -75,6 +116,17 @@ class Driver:
         size = r.choice([5, 50, 70000, 140000]) if (self.big and r.random() < 0.25) else r.randrange(1, 120)
         if size > 1000:
             self.features.add('big-record')
+        if self.mix_classes:
+            revs = [d for (_, d) in self.spec.revs(oid) if d is not None]
+            if revs and r.random() < self.equal_p:
+                self.features.add('equal-restore-of-earlier-bytes')
+                return r.choice(revs)              # a later change that is "equal in effect" to an earlier state
+            k = self.classes.setdefault(oid, r.choice(['cell', 'counter', 'counter', 'uset']))
+            if k == 'counter':
+                return objs.make_record(objs.Counter, {'value': r.randrange(1000), 'note': 'n%d' % self.uid})
+            if k == 'uset':
+                return objs.make_record(objs.USet, {'items': sorted(r.sample(range(20), r.randrange(4))), 'ref': objs.Ref(z64),
+                                                    'note': 'n%d' % self.uid})
         live = [o for o in self.spec.oids() if self.spec.current(o)[1] is not None] or [z64]
         refs = [r.choice(live)] if r.random() < 0.6 else []
         return objs.cell_record('p%d-' % self.uid + 'x' * size, refs, cls=self.record_class)
@@ -195,6 +247,21 @@ class Driver:
             self.features.add('undo-either-adopted')
         else:
             recs = list(expect[1])
+            if any(isinstance(d, Merged) for (_, d) in recs):
+                # merged states: the model predicts the state, the storage chose the pickle bytes
+                it = st.iterator(tid, tid)
+                real = [(r.oid, r.data) for tx in it for r in tx]
+                if hasattr(it, 'close'):
+                    it.close()
+                if [o for o, _ in real] != [o for o, _ in recs]:
+                    raise Mismatch('undo:records-differ-from-model', {'real': [o for o, _ in real], 'model': [o for o, _ in recs]})
+                for i, ((o, d), (_, rd)) in enumerate(zip(recs, real)):
+                    if isinstance(d, Merged):
+                        if rd is None or not d.matches(rd):
+                            raise Mismatch('undo:merged-state-differs-from-class-resolver',
+                                           {'oid': o, 'model': d.state, 'real': None if rd is None else objs.decode_record(rd)[1]})
+                        recs[i] = (o, rd)
+                        self.features.add('undo-merged')
         self.committed(t, tid, recs)
         self.features.add('undo%s' % ('-multi' if len(us) > 1 else ''))
         if any(d is None for (o, d) in self.spec.txns[-1].records):
